@@ -335,6 +335,7 @@ def decide_and_report(prop, plan, ctx, verdicts, xchk, oracle, canary, audit, st
         return None
 
     oracle_reran = {}
+    replay_budget = {"oracle_runs": 0, "t0": time.time(), "diffs": 0}
     for v in failures:
         k = is_known(v.name)
         if k:
@@ -352,7 +353,8 @@ def decide_and_report(prop, plan, ctx, verdicts, xchk, oracle, canary, audit, st
                     atoms = RP.atoms_of([RP.from_json(x) for x in v.model.values() if isinstance(x, (dict, str, int))])
                     atoms["allow_ob"] = True
                     c = ctx.db.get(q)
-                    if c.harness is None or c.diff is not None:
+                    if (c.harness is None or c.diff is not None) and (replay_budget["diffs"] < 6 and time.time() - replay_budget["t0"] < 240):
+                        replay_budget["diffs"] += 1
                         dom = []
                         for pat, ex_ in (plan.relevance or {}).items():
                             if pat in v.name and isinstance(ex_, tuple) and ex_[0] == "within" and (":path" in pat or "html_escape" in pat):
@@ -366,14 +368,18 @@ def decide_and_report(prop, plan, ctx, verdicts, xchk, oracle, canary, audit, st
                 except Exception as ex:
                     rep["replay_error"] = f"{type(ex).__name__}: {ex}"
             prop_fail = None
-            if plan.oracle:
+            # widen the bounded search around this counter-model - unless a failing input is already in hand, and within a budget
+            # (two wide oracle runs and four minutes of replay per check: later refutations reuse what was found)
+            if plan.oracle and not oracle_fails and replay_budget["oracle_runs"] < 2 and time.time() - replay_budget["t0"] < 240 and replay_budget.get("fail") is None:
+                replay_budget["oracle_runs"] += 1
                 try:
                     atoms_j = {"Str": [x for x in v.model.values() if isinstance(x, str)], "Node": [x for x in v.model.values() if isinstance(x, dict) and x.get("$") in ("El", "Txt", "Raw", "Rp", "Md")]}
                     o = RP.run_real([{"kind": "oracle", "oracle": plan.oracle, "seed": ctx.seed + 1, "n": 3000, "atoms": atoms_j}])[0]
                     if o.get("failures"):
-                        prop_fail = o["failures"][0]
+                        replay_budget["fail"] = o["failures"][0]
                 except Exception as ex:
                     rep["oracle_error"] = str(ex)
+            prop_fail = replay_budget.get("fail")
             if prop_fail is None and oracle_fails:
                 prop_fail = oracle_fails[0]
             if prop_fail is not None:
